@@ -26,6 +26,7 @@ from cherab.core.atomic import elements as _el
 from cherab.core.model import BeamCXLine, BeamEmissionLine
 from cherab.core.model.lineshape import LineShapeModel
 from cherab.openadas.rates.beam import NullBeamPopulationRate, NullBeamEmissionPEC
+from cherab.openadas.rates.cx import NullBeamCXPEC
 
 ELEMENTS = [_el.hydrogen, _el.deuterium, _el.tritium, _el.helium, _el.lithium, _el.beryllium, _el.boron,
             _el.carbon, _el.nitrogen, _el.oxygen, _el.neon, _el.argon]
@@ -93,11 +94,31 @@ def attenuator_at(case):
 
 
 def aff3(c, e, n, t):
+    """c = [c0, c1, c2, c3, threshold (optional), null-object flag (optional)]: zero below the energy threshold"""
+    if len(c) > 4 and e < c[4]:
+        return 0.0
     return c[0] + c[1] * e + c[2] * n + c[3] * t
 
 
 def aff5(c, e, t, n, z, b):
+    if len(c) > 6 and e < c[6]:
+        return 0.0
     return c[0] + c[1] * e + c[2] * t + c[3] * n + c[4] * z + c[5] * b
+
+
+def is_null(c, n):
+    """coefficient list that stands for one of the provider's null-rate objects (flag after the threshold)"""
+    return len(c) > n + 1 and c[n + 1] == 1.0
+
+
+def threshold_margin(log):
+    """smallest relative distance between an evaluation energy and the threshold of the table evaluated (the side of
+    the threshold is decided in double by the stub and exactly by the model)"""
+    m = float("inf")
+    for l in log:
+        if l[0] in ("cx", "pop", "pec") and len(l) > 5 and l[5] > 0:
+            m = min(m, abs(l[2][0] - l[5]) / l[5])
+    return m
 
 
 # ---- stubs (Python subclasses of the real base classes) ---------------------------------------------
@@ -127,7 +148,8 @@ class StubCX(BeamCXPEC):
 
     def evaluate(self, energy, temperature, density, z_effective, b_field):
         v = aff5(self.c, energy, temperature, density, z_effective, b_field)
-        self.log.append(("cx", self.donor_metastable, (energy, temperature, density, z_effective, b_field), v, self.serial))
+        self.log.append(("cx", self.donor_metastable, (energy, temperature, density, z_effective, b_field), v, self.serial,
+                         self.c[6] if len(self.c) > 6 else 0.0))
         return v
 
 
@@ -137,7 +159,7 @@ class StubPop(BeamPopulationRate):
 
     def evaluate(self, energy, density, temperature):
         v = aff3(self.c, energy, density, temperature)
-        self.log.append(("pop", self.tag, (energy, density, temperature), v, self.serial))
+        self.log.append(("pop", self.tag, (energy, density, temperature), v, self.serial, self.c[4] if len(self.c) > 4 else 0.0))
         return v
 
 
@@ -147,8 +169,53 @@ class StubPEC(BeamEmissionPEC):
 
     def evaluate(self, energy, density, temperature):
         v = aff3(self.c, energy, density, temperature)
-        self.log.append(("pec", self.tag, (energy, density, temperature), v, self.serial))
+        self.log.append(("pec", self.tag, (energy, density, temperature), v, self.serial, self.c[4] if len(self.c) > 4 else 0.0))
         return v
+
+
+class NullCX(NullBeamCXPEC):
+    """the provider's null CX coefficient (its own evaluate), which also records the arguments it receives"""
+
+    def __init__(self, m, log):
+        super().__init__(m)
+        self.log, self.serial = log, next_serial()
+
+    def evaluate(self, energy, temperature, density, z_effective, b_field):
+        v = NullBeamCXPEC.evaluate(self, energy, temperature, density, z_effective, b_field)
+        self.log.append(("cx", self.donor_metastable, (energy, temperature, density, z_effective, b_field), v, self.serial, 0.0))
+        return v
+
+
+class NullPop(NullBeamPopulationRate):
+    def __init__(self, tag, log):
+        self.tag, self.log, self.serial = tag, log, next_serial()
+
+    def evaluate(self, energy, density, temperature):
+        v = NullBeamPopulationRate.evaluate(self, energy, density, temperature)
+        self.log.append(("pop", self.tag, (energy, density, temperature), v, self.serial, 0.0))
+        return v
+
+
+class NullPEC(NullBeamEmissionPEC):
+    def __init__(self, tag, log):
+        self.tag, self.log, self.serial = tag, log, next_serial()
+
+    def evaluate(self, energy, density, temperature):
+        v = NullBeamEmissionPEC.evaluate(self, energy, density, temperature)
+        self.log.append(("pec", self.tag, (energy, density, temperature), v, self.serial, 0.0))
+        return v
+
+
+def make_cx(m, c, log):
+    return NullCX(m, log) if is_null(c, 6) else StubCX(m, c, log)
+
+
+def make_pop(tag, c, log):
+    return NullPop(tag, log) if is_null(c, 4) else StubPop(tag, c, log)
+
+
+def make_pec(tag, c, log):
+    return NullPEC(tag, log) if is_null(c, 4) else StubPEC(tag, c, log)
 
 
 class Recorder(LineShapeModel):
@@ -190,20 +257,20 @@ class StubData(AtomicData):
 
     def beam_cx_pec(self, donor_ion, receiver_ion, receiver_charge, transition):
         self.log.append(("request_cx", donor_ion.name, receiver_ion.name, receiver_charge, tuple(transition)))
-        return [StubCX(r["m"], r["c"], self.log) for r in self.case["rates"]]
+        return [make_cx(r["m"], r["c"], self.log) for r in self.case["rates"]]
 
     def beam_population_rate(self, beam_ion, metastable, plasma_ion, charge):
         i = self.index[(plasma_ion, charge)]
         if charge == 0:
             return NullBeamPopulationRate()
         r = [r for r in self.case["rates"] if r["m"] == metastable][0]
-        return StubPop((metastable, i), r["pop"][i], self.log)
+        return make_pop((metastable, i), r["pop"][i], self.log)
 
     def beam_emission_pec(self, beam_ion, plasma_ion, charge, transition):
         i = self.index[(plasma_ion, charge)]
         if charge == 0:
             return NullBeamEmissionPEC()
-        return StubPEC(i, self.case["pecs"][i], self.log)
+        return make_pec(i, self.case["pecs"][i], self.log)
 
 
 def composition_arg(sps, form):
@@ -243,7 +310,7 @@ def build_beam(case, plasma, data, log):
     beam.energy = number_form(b["energy"], b.get("form", "float"))
     beam.element = ELEMENTS[b["element"]]
     beam.length = number_form(b["length"], b.get("form", "float"))
-    beam.temperature = 10.0
+    beam.temperature = b.get("temperature", 10.0)
     beam.attenuator = StubAttenuator(b["att0"], log)
     return beam
 
@@ -347,7 +414,49 @@ def _eval_bes(model, bp, pp, direction, obs, log):
     return {"code": 1 if called else 0, "radiance": total, "log": log, "error": ""}
 
 
+STARK_SPLITTING_FACTOR = 2.77e-8       # only used to place the read-back windows between the components
+E_CHARGE, WAVELENGTH = 1.602176634e-19, 656.1
+
+
+def mse_windows(case):
+    """half-widths of the five nested read-back windows around the (unshifted) central wavelength: between the Stark
+    components for j = 0..3, everything for j = 4.  The observation direction is perpendicular to the beam, so the
+    central wavelength is the natural one exactly."""
+    b = case["beam"]
+    speed = math.sqrt(2 * b["energy"] * E_CHARGE / AMU)
+    bf = bfield_at(case)
+    d = b["dir"]
+    dl = math.sqrt(sum(c * c for c in d))
+    v = [c / dl * speed for c in d]
+    cr = (v[1] * bf[2] - v[2] * bf[1], v[2] * bf[0] - v[0] * bf[2], v[0] * bf[1] - v[1] * bf[0])
+    split = STARK_SPLITTING_FACTOR * math.sqrt(sum(c * c for c in cr))
+    return [(j + 0.5) * split for j in range(4)] + [100.0], split
+
+
+def _eval_mse(case, model, bp, pp, direction, obs, log):
+    """five evaluations of the same live model on one-bin spectra of growing width: sample * delta is the integral of
+    the rendered multiplet over the window (each Gaussian is many widths away from every window edge)"""
+    windows, split = mse_windows(case)
+    cum, code, err = [], None, ""
+    for w in windows:
+        del log[:]
+        spectrum = Spectrum(WAVELENGTH - w, WAVELENGTH + w, 1)
+        try:
+            res = model.emission(bp, pp, direction, obs, spectrum)
+        except CAUGHT as e:
+            return {"code": error_code(e), "radiance": 0.0, "log": list(log), "error": repr(e), "cumulative": [0.0] * 5}
+        cum.append(float(res.samples[0]) * res.delta_wavelength)
+        c = 1 if (any(l[0] == "electron" for l in log) or cum[-1] != 0.0) else 0
+        code = c if code is None else (code if code == c else 8)
+    return {"code": code, "radiance": cum[-1], "log": list(log), "error": err, "cumulative": cum, "stark_split_estimate": split}
+
+
 def _run_emission(case, beam, bp, pp, direction, obs, log):
+    if case["kind"] == "mse":
+        model = make_bes_model(case, case["beam"]["element"], beam, beam.plasma, beam.atomic_data)
+        if case.get("attach", "models") == "models":
+            beam.models = [model]
+        return _eval_mse(case, model, bp, pp, direction, obs, log)
     b = case["beam"]
     attach = case.get("attach", "models") == "models"
     if case["kind"] == "cx":
@@ -375,17 +484,31 @@ def _coef_int(*key):
     return [0, 1, 1, 2, 3, 5, 7][h % 7]
 
 
+def _zero_role(base, *key):
+    """for the history providers: which tables are exactly zero (all coefficients 0), a null-rate object, or vanish
+    below an energy threshold.  `seed` even: no special tables."""
+    h = hashlib.sha256(repr(("role",) + key).encode()).digest()
+    r = h[0] % 10
+    if r == 0:
+        return [0.0] * len(base) + [0.0]                      # all coefficients zero
+    if r == 1:
+        return [0.0] * len(base) + [0.0, 1.0]                 # the provider's null-rate object
+    if r in (2, 3):
+        return base + [2.0 ** (10 + h[1] % 8)]                # zero below 1e3 .. 1.3e5 eV/amu
+    return base + [0.0]
+
+
 def pop_coeffs(seed, m, el, ch):
     """population coefficients of the provider `seed` for metastable m and species (el, ch)"""
     if ch == 0:
         return [0.0] * 4
-    return [_coef_int(seed, "pop", m, el, ch, k) * u * 2.0 ** -3 for k, u in enumerate(UNIT3)]
+    return _zero_role([_coef_int(seed, "pop", m, el, ch, k) * u * 2.0 ** -3 for k, u in enumerate(UNIT3)], seed, "pop", m, el, ch)
 
 
 def pec_coeffs(seed, el, ch):
     if ch == 0:
         return [0.0] * 4
-    return [_coef_int(seed, "pec", el, ch, k) * u * SCALE_PEC for k, u in enumerate(UNIT3)]
+    return _zero_role([_coef_int(seed, "pec", el, ch, k) * u * SCALE_PEC for k, u in enumerate(UNIT3)], seed, "pec", el, ch)
 
 
 class HistData(AtomicData):
@@ -400,20 +523,20 @@ class HistData(AtomicData):
 
     def beam_cx_pec(self, donor_ion, receiver_ion, receiver_charge, transition):
         self.log.append(("request_cx", donor_ion.name, receiver_ion.name, receiver_charge, tuple(transition)))
-        return [StubCX(r["m"], r["c"], self.log) for r in self.prov["rates"]]
+        return [make_cx(r["m"], r["c"], self.log) for r in self.prov["rates"]]
 
     def beam_population_rate(self, beam_ion, metastable, plasma_ion, charge):
         if charge == 0:
             return NullBeamPopulationRate()
         el = ELEMENTS.index(plasma_ion)
-        return StubPop((metastable, (el, charge)), pop_coeffs(self.prov["seed"], metastable, el, charge), self.log)
+        return make_pop((metastable, (el, charge)), pop_coeffs(self.prov["seed"], metastable, el, charge), self.log)
 
     def beam_emission_pec(self, beam_ion, plasma_ion, charge, transition):
         self.log.append(("request_pec", beam_ion.name, plasma_ion.name, charge, tuple(transition)))
         if charge == 0:
             return NullBeamEmissionPEC()
         el = ELEMENTS.index(plasma_ion)
-        return StubPEC((el, charge), pec_coeffs(self.prov["seed"], el, charge), self.log)
+        return make_pec((el, charge), pec_coeffs(self.prov["seed"], el, charge), self.log)
 
 
 def make_species(s):
@@ -638,10 +761,10 @@ class Scene:
         for l in log:
             if l[0] == "pop":
                 i = keys.index(l[1][1]) if l[1][1] in keys else -1
-                conv.append(("pop", (l[1][0], i), l[2], l[3], l[4]))
+                conv.append(("pop", (l[1][0], i), l[2], l[3], l[4], l[5]))
             elif l[0] == "pec":
                 i = keys.index(l[1]) if l[1] in keys else -1
-                conv.append(("pec", i, l[2], l[3], l[4]))
+                conv.append(("pec", i, l[2], l[3], l[4], l[5]))
             else:
                 conv.append(l)
                 continue
@@ -732,6 +855,52 @@ def probe_notifications():
     return result, detail
 
 
+def line_policy_cases():
+    """the two `line` setters and BeamEmissionLine._populate_cache on every element of ELEMENTS, several charges and
+    transitions, and None: [(is_none, hydrogen family, charge, upper, lower, observed code)], [(beam el, line el, charge, code)]"""
+    def code_of(fn):
+        try:
+            fn()
+            return 0
+        except ValueError:
+            return 3
+        except TypeError:
+            return 9
+    setter, cx_none = [], []
+    ok_line = Line(ELEMENTS[1], 0, (3, 2))
+    for i, el in enumerate(ELEMENTS):
+        fam = el.atomic_number == 1
+        for ch in sorted({0, 1, el.atomic_number - 1}):
+            if not 0 <= ch <= el.atomic_number - 1:
+                continue
+            for tr in ((3, 2), (4, 2), (3, 1), (2, 3), (2, 1)):
+                ln = Line(el, ch, tr)
+                c1 = code_of(lambda: BeamEmissionLine(ln))                       # through the constructor
+                m = BeamEmissionLine(ok_line)
+                c2 = code_of(lambda: setattr(m, "line", ln))                     # through the setter
+                setter.append((False, fam, ch, tr[0], tr[1], c1 if c1 == c2 else 8))
+    m = BeamEmissionLine(ok_line)
+    setter.append((True, False, 0, 0, 0, code_of(lambda: setattr(m, "line", None))))
+    cx = BeamCXLine(Line(ELEMENTS[7], 5, (8, 7)))
+    cx_none = [(False, code_of(lambda: setattr(cx, "line", ok_line))), (True, code_of(lambda: setattr(cx, "line", None)))]
+    # _populate_cache: beam element against the line's element, on a real scene
+    cache = []
+    for bi in (0, 1, 2):
+        for li in (0, 1, 2):
+            case = {"kind": "bes", "species": [{"el": 1, "charge": 1, "n0": 1e19, "t0": 100.0, "v0": [0.0, 0.0, 0.0]}],
+                    "b0": [0.0, 1.0, 0.0], "plasma_point": [0.5, 0.5, 0.5], "beam_point": [0.0, 0.0, 0.5],
+                    "beam": {"energy": 5e4, "length": 1.0, "att0": 1e15, "dir": [0.0, 0.0, 1.0], "element": bi},
+                    "pecs": [[1e-35, 0.0, 0.0, 0.0]]}
+            log = []
+            plasma = build_plasma(case, log)
+            beam = build_beam(case, plasma, StubData(case, log), log)
+            model = BeamEmissionLine(Line(ELEMENTS[li], 0, (3, 2)))
+            beam.models = [model]
+            pt, v = Point3D(0, 0, 0.5), Vector3D(0, 0, 1)
+            cache.append((bi, li, 0, code_of(lambda: model.emission(pt, pt, v, Vector3D(1, 0, 0), Spectrum(600, 700, 1)))))
+    return setter, cx_none, cache
+
+
 def run_history(hist, views=None):
     """hist = {"cfg": initial configuration, "steps": [{"op": ..., ..., "evals": [ev, ...]}]};
     returns [(case, out, step index)] for every evaluation.  `views` (a list) receives, per step, the composition
@@ -788,7 +957,11 @@ def property_failures(case, out, k4pi, e_charge, amu):
 
     dsum = sum(s[1] ** 2 * s[2] for s in sp)
     log = out["log"]
-    if kind == "bes":
+    if kind in ("bes", "mse"):
+        if kind == "mse":
+            cum = out.get("cumulative", [])
+            if any(cum[i + 1] < cum[i] * (1 - 1e-9) for i in range(len(cum) - 1)):
+                fails.append("Stark multiplet: integrals over nested windows decrease: %r" % (cum,))
         if nb == 0.0:
             if out["code"] not in (0, 1) or out["radiance"] != 0.0:
                 fails.append("beam emission does not vanish where the beam density is zero (radiance %r, %s)"
